@@ -213,4 +213,292 @@ theorem decoded_stored_points_rep {R : F → Prop} (N : C12.NanLaws F) (C : C12.
 
 end Stored
 
+/-! ## 2. the collected sample points -/
+
+section Collected
+variable {F P : Type} [Scalar F] [Scalar P] [Cvt P F] [Trig F] [Trig P]
+
+/-- every custom bank of a sample list is at most `B`. -/
+def CustomLe (B : Int) (l : List HitSampleInfo) : Prop := ∀ x ∈ l, x.customSampleBank ≤ B
+
+theorem foldl_custom_le (B : Int) (rest : List HitSampleInfo) (init : Int) (hi : init ≤ B) (hr : CustomLe B rest) :
+    rest.foldl (fun acc x => if x.customSampleBank > acc then x.customSampleBank else acc) init ≤ B := by
+  induction rest generalizing init with
+  | nil => exact hi
+  | cons x xs ih =>
+    rw [List.foldl_cons]
+    apply ih
+    · split
+      · exact hr x (by simp)
+      · exact hi
+    · exact fun y hy => hr y (by simp [hy])
+
+/-- **`collect_sample`**: the point sits at the given time; its custom bank is the maximum over the samples. -/
+theorem collectSample_mem {samples : List HitSampleInfo} {time : F} {p : SamplePoint F}
+    (h : p ∈ collectSample samples time) : p.time = time ∧ ∀ B, CustomLe B samples → p.customSampleBank ≤ B := by
+  cases samples with
+  | nil => cases h
+  | cons s rest =>
+    simp only [collectSample, List.mem_singleton] at h
+    subst h
+    exact ⟨rfl, fun B hB => foldl_custom_le B rest _ (hB s (by simp)) (fun y hy => hB y (by simp [hy]))⟩
+
+/-- where a collected point comes from: `collect_sample` of the object's own samples or of one of a slider's node lists. -/
+def CollectedFrom (h : HitObject F P) (p : SamplePoint F) : Prop :=
+  ∃ (samples : List HitSampleInfo) (time : F), p ∈ collectSample samples time ∧
+    (samples = h.samples ∨ ∃ s, h.kind = .slider s ∧ samples ∈ s.nodeSamples)
+
+theorem getD_own_or_node {h : HitObject F P} {s : HitObjectSlider F P} (hk : h.kind = .slider s)
+    (o : Option (List HitSampleInfo)) (ho : ∀ x, o = some x → x ∈ s.nodeSamples) :
+    o.getD h.samples = h.samples ∨ ∃ s', h.kind = .slider s' ∧ o.getD h.samples ∈ s'.nodeSamples := by
+  cases o with
+  | none => exact Or.inl rfl
+  | some x => exact Or.inr ⟨s, hk, ho x rfl⟩
+
+theorem osuSliderSamples_origin (m : Beatmap F P) (h : HitObject F P) (s : HitObjectSlider F P) (hk : h.kind = .slider s)
+    (dist duration : F) (buf : List (SliderEvents.SliderEvent F)) (r : List (SamplePoint F) × List (SliderEvents.SliderEvent F))
+    (hr : osuSliderSamples m h s dist duration buf = .ok r) : ∀ p ∈ r.1, CollectedFrom h p := by
+  unfold osuSliderSamples at hr
+  simp only [bind, Except.bind, pure, Except.pure] at hr
+  split at hr
+  · cases hr
+  · rename_i v _
+    obtain ⟨evs, buf'⟩ := v
+    simp only [Except.ok.injEq] at hr
+    subst hr
+    intro p hp
+    simp only [List.mem_flatMap] at hp
+    obtain ⟨ev, _, hp⟩ := hp
+    cases hkd : ev.kind <;> simp only [hkd] at hp
+    · exact ⟨_, _, hp, getD_own_or_node hk _ (fun x hx => List.mem_of_mem_head? hx)⟩
+    · cases hp
+    · exact ⟨_, _, hp, getD_own_or_node hk _ (fun x hx => List.mem_of_getElem? hx)⟩
+    · cases hp
+    · exact ⟨_, _, hp, getD_own_or_node hk _ (fun x hx => List.mem_of_getElem? hx)⟩
+
+theorem catchSliderSamples_origin (m : Beatmap F P) (h : HitObject F P) (s : HitObjectSlider F P) (hk : h.kind = .slider s)
+    (dist duration : F) (buf : List (SliderEvents.SliderEvent F)) (r : List (SamplePoint F) × List (SliderEvents.SliderEvent F))
+    (hr : catchSliderSamples m h s dist duration buf = .ok r) : ∀ p ∈ r.1, CollectedFrom h p := by
+  unfold catchSliderSamples at hr
+  simp only [bind, Except.bind, pure, Except.pure] at hr
+  split at hr
+  · cases hr
+  · rename_i v _
+    obtain ⟨evs, buf'⟩ := v
+    simp only [Except.ok.injEq] at hr
+    subst hr
+    intro p hp
+    simp only [List.mem_flatMap] at hp
+    obtain ⟨⟨ev, i⟩, _, hp⟩ := hp
+    exact ⟨_, _, hp, getD_own_or_node hk _ (fun x hx => List.mem_of_getElem? hx)⟩
+
+/-- **collected_point_origin (one object)**: every point `collect_samples` takes from an object is `collect_sample` of its
+own samples or of one of its node lists. -/
+theorem collectObject_origin (m : Beatmap F P) (h : HitObject F P) (buf : List (SliderEvents.SliderEvent F))
+    (r : List (SamplePoint F) × List (SliderEvents.SliderEvent F)) (hr : collectObject m h buf = .ok r) :
+    ∀ p ∈ r.1, CollectedFrom h p := by
+  have own : ∀ (t : F), ∀ p ∈ collectSample h.samples t, CollectedFrom h p :=
+    fun t p hp => ⟨_, t, hp, Or.inl rfl⟩
+  unfold collectObject at hr
+  cases hk : h.kind with
+  | circle c =>
+    simp only [hk, pure, Except.pure, Except.ok.injEq] at hr
+    subst hr
+    exact own _
+  | spinner sp =>
+    simp only [hk, pure, Except.pure, Except.ok.injEq] at hr
+    subst hr
+    exact own _
+  | hold ho =>
+    simp only [hk, pure, Except.pure, Except.ok.injEq] at hr
+    subst hr
+    intro p hp
+    rcases List.mem_append.mp hp with hp | hp
+    · exact own _ p hp
+    · exact own _ p hp
+  | slider s =>
+    simp only [hk, bind, Except.bind] at hr
+    split at hr
+    · cases hr
+    · rename_i dist _
+      cases hmode : m.general.mode <;> simp only [hmode, bind, Except.bind, pure, Except.pure] at hr
+      · split at hr
+        · cases hr
+        · rename_i v hv
+          simp only [Except.ok.injEq] at hr
+          subst hr
+          intro p hp
+          rcases List.mem_append.mp hp with hp | hp
+          · exact own _ p hp
+          · exact osuSliderSamples_origin m h s hk _ _ _ v hv p hp
+      · simp only [Except.ok.injEq] at hr
+        subst hr
+        exact own _
+      · split at hr
+        · cases hr
+        · rename_i v hv
+          simp only [Except.ok.injEq] at hr
+          subst hr
+          intro p hp
+          rcases List.mem_append.mp hp with hp | hp
+          · exact own _ p hp
+          · exact catchSliderSamples_origin m h s hk _ _ _ v hv p hp
+      · simp only [Except.ok.injEq] at hr
+        subst hr
+        intro p hp
+        rcases List.mem_append.mp hp with hp | hp
+        · exact own _ p hp
+        · exact own _ p hp
+
+/-- every point of `collect_all` was taken from one of the objects, by one `collectObject` call. -/
+theorem collectAll_mem (m : Beatmap F P) (hs : List (HitObject F P)) (buf : List (SliderEvents.SliderEvent F))
+    (pts : List (SamplePoint F)) (h : collectAll m hs buf = .ok pts) :
+    ∀ p ∈ pts, ∃ o ∈ hs, ∃ b r, collectObject m o b = .ok r ∧ p ∈ r.1 := by
+  induction hs generalizing buf pts with
+  | nil =>
+    simp only [collectAll, pure, Except.pure, Except.ok.injEq] at h
+    subst h
+    intro p hp; cases hp
+  | cons o rest ih =>
+    simp only [collectAll, bind, Except.bind] at h
+    cases ho : collectObject m o buf with
+    | error e => simp [ho] at h
+    | ok r =>
+      obtain ⟨a, buf'⟩ := r
+      simp only [ho] at h
+      cases hr : collectAll m rest buf' with
+      | error e => simp [hr] at h
+      | ok b =>
+        simp only [hr, pure, Except.pure, Except.ok.injEq] at h
+        subst h
+        intro p hp
+        rcases List.mem_append.mp hp with hp | hp
+        · exact ⟨o, by simp, buf, (a, buf'), ho, hp⟩
+        · obtain ⟨o', ho', x⟩ := ih buf' b hr p hp
+          exact ⟨o', by simp [ho'], x⟩
+
+/-! ### what `add` keeps -/
+
+theorem mem_addSample {cp : ControlPoints F} {p s : SamplePoint F} (h : s ∈ (cp.addSample p).samplePoints) :
+    s = p ∨ s ∈ cp.samplePoints := by
+  unfold ControlPoints.addSample at h
+  split at h
+  · exact Or.inr h
+  · exact C13.mem_insertOrReplace h
+
+theorem mem_addCollected {cp : ControlPoints F} {l : List (SamplePoint F)} {s : SamplePoint F}
+    (h : s ∈ (addCollected cp l).samplePoints) : s ∈ cp.samplePoints ∨ s ∈ l := by
+  cases l with
+  | nil => exact Or.inl h
+  | cons first rest =>
+    have gen : ∀ (rest : List (SamplePoint F)) (acc : ControlPoints F × SamplePoint F),
+        s ∈ ((rest.foldl (fun (acc : ControlPoints F × SamplePoint F) s =>
+          if !s.isRedundant acc.2 then (acc.1.addSample s, s) else acc) acc).1).samplePoints →
+        s ∈ acc.1.samplePoints ∨ s ∈ rest := by
+      intro rest
+      induction rest with
+      | nil => intro acc h; exact Or.inl h
+      | cons x xs ih =>
+        intro acc h
+        rw [List.foldl_cons] at h
+        rcases ih _ h with h | h
+        · split at h
+          · rcases mem_addSample h with rfl | h
+            · exact Or.inr (by simp)
+            · exact Or.inl h
+          · exact Or.inl h
+        · exact Or.inr (by simp [h])
+    simp only [addCollected] at h
+    rcases gen rest _ h with h | h
+    · rcases mem_addSample h with rfl | h
+      · exact Or.inr (by simp)
+      · exact Or.inl h
+    · exact Or.inr (by simp [h])
+
+/-- **collected_point_origin**: a sample point of the collection the encoder writes is a sample point of the map or was
+collected from one of its objects. -/
+theorem collected_point_origin (m : Beatmap F P) (cp : ControlPoints F) (hc : collectSamples m = .ok cp) :
+    ∀ s ∈ cp.samplePoints, s ∈ m.controlPoints.samplePoints ∨
+      ∃ pts, collectAll m m.hitObjects [] = .ok pts ∧ s ∈ pts ∧
+        ∃ o ∈ m.hitObjects, CollectedFrom o s ∧ ∃ b r, collectObject m o b = .ok r ∧ s ∈ r.1 := by
+  unfold collectSamples at hc
+  cases hca : collectAll m m.hitObjects [] with
+  | error e => simp [hca, bind, Except.bind] at hc
+  | ok pts =>
+    simp only [hca, bind, Except.bind, pure, Except.pure, Except.ok.injEq] at hc
+    subst hc
+    intro s hs
+    rcases mem_addCollected hs with hs | hs
+    · exact Or.inl hs
+    · rw [List.mem_mergeSort] at hs
+      obtain ⟨o, ho, b, r, hr, hp⟩ := collectAll_mem m _ _ pts hca s hs
+      exact Or.inr ⟨pts, rfl, hs, o, ho, collectObject_origin m o b r hr s hp, b, r, hr, hp⟩
+
+/-! ### the residuals on collected times -/
+
+/-- **the residual behind "sample points collected at non-finite computed times"**: every time at which
+`collect_samples` collects a point is a number within the parse limit ±(2³¹−1). (Otherwise the written line is rejected by
+`parse_timing_points`: `Number.Overflow` / `InvalidFloat`.) -/
+def CollectedTimesInLimit (m : Beatmap F P) : Prop :=
+  ∀ pts, collectAll m m.hitObjects [] = .ok pts → ∀ p ∈ pts, InLimit p.time
+
+/-- the same restricted to SLIDERS (the only objects whose collected times are computed from the curve: the end time
+`start + spans · dist / velocity` and the node times of `slider_events` / `juicestream_events`). -/
+def SliderTimesInLimit (m : Beatmap F P) : Prop :=
+  ∀ h ∈ m.hitObjects, ∀ s, h.kind = .slider s → ∀ b r, collectObject m h b = .ok r → ∀ p ∈ r.1, InLimit p.time
+
+/-- **arithmetic laws** for the end time of spinners and holds (the `Stop` halves of `DurLaws`, without representability). -/
+structure EndTimeLaws (F : Type) [Scalar F] : Prop where
+  spinner : ∀ t d : F, InLimit t → InLimit d → InLimit (t + Scalar.max (d - t) 0)
+  hold : ∀ t e : F, InLimit t → InLimit e → InLimit (t + (Scalar.max t e - t))
+
+theorem endTimeLaws_of_durLaws {RF : F → Prop} (D : DurLaws F RF) : EndTimeLaws F :=
+  ⟨fun t d ht hd => (D.spinnerStop t d ht hd).2, fun t e ht he => (D.holdStop t e ht he).2⟩
+
+/-- the collected times of a decoded circle / spinner / hold are within the limit (`EndTimeLaws`). -/
+theorem collectObject_time_nonslider (E : EndTimeLaws F) (m : Beatmap F P) (h : HitObject F P) (hst : C14.StoredObj h)
+    (hns : ∀ s, h.kind ≠ .slider s) (b : List (SliderEvents.SliderEvent F))
+    (r : List (SamplePoint F) × List (SliderEvents.SliderEvent F)) (hr : collectObject m h b = .ok r) :
+    ∀ p ∈ r.1, InLimit p.time := by
+  obtain ⟨ht, hk⟩ := hst
+  unfold collectObject at hr
+  cases hkd : h.kind with
+  | slider s => exact absurd hkd (hns s)
+  | circle c =>
+    simp only [hkd, pure, Except.pure, Except.ok.injEq] at hr
+    subst hr
+    intro p hp
+    rw [(collectSample_mem hp).1]; exact ht
+  | spinner sp =>
+    simp only [hkd, pure, Except.pure, Except.ok.injEq] at hr
+    subst hr
+    rw [hkd] at hk
+    obtain ⟨_, d, hd, hdur⟩ := hk
+    intro p hp
+    rw [(collectSample_mem hp).1, hdur]; exact E.spinner _ _ ht hd
+  | hold ho =>
+    simp only [hkd, pure, Except.pure, Except.ok.injEq] at hr
+    subst hr
+    rw [hkd] at hk
+    obtain ⟨_, e, he, hdur⟩ := hk
+    intro p hp
+    rcases List.mem_append.mp hp with hp | hp
+    · rw [(collectSample_mem hp).1, hdur]; exact E.hold _ _ ht he
+    · rw [(collectSample_mem hp).1]; exact ht
+
+/-- **only sliders contribute to the residual**: for a decoded map, under `EndTimeLaws`, the collected times are within the
+limit as soon as those collected from sliders are. -/
+theorem collectedTimes_of_sliders (E : EndTimeLaws F) (bs : List UInt8) (st : BeatmapState F P) (m : Beatmap F P)
+    (h1 : decodeBytes beatmapDecoder bs = .ok st) (h2 : st.finish = .ok m) (hs : SliderTimesInLimit m) :
+    CollectedTimesInLimit m := by
+  intro pts hp p hpm
+  obtain ⟨o, ho, b, r, hr, hpr⟩ := collectAll_mem m _ _ pts hp p hpm
+  by_cases hsl : ∃ s, o.kind = .slider s
+  · obtain ⟨s, hk⟩ := hsl
+    exact hs o ho s hk b r hr p hpr
+  · exact collectObject_time_nonslider E m o (C14.decoded_stored bs st m h1 h2 o ho)
+      (fun s hk => hsl ⟨s, hk⟩) b r hr p hpr
+
+end Collected
+
 end Rosu.C04
